@@ -19,7 +19,8 @@ RULE = ('random grammars from a typed generator (common/abstract/match rules, = 
         'values with Python types, defaults, containment). distinct = (grammar skeleton, input token-kind string); '
         'non-trivial = accepted input whose model has >= 2 objects or >= 1 list attribute')
 REQUIRED = {'accepted_both': 300, 'rejected_both': 100, 'grammars': 50, 'restore_invariant_checked': 300,
-            'cfg_skipws_off': 5, 'cfg_ws': 5, 'cfg_regexp_group': 5, 'cfg_no_auto_init': 5}
+            'cfg_skipws_off': 5, 'cfg_ws': 5, 'cfg_regexp_group': 5, 'cfg_no_auto_init': 5,
+            'feature_match_suppress_repetition': 10, 'feature_match_suppress': 10, 'feature_rule_ref_suppress': 10}
 ASSUMPTIONS = ['the reference interpreter encodes the documented semantics (docs/grammar.md, docs/metamodel.md)',
                'fragment F0: every choice alternative / repetition body / common rule consumes at least one character']
 
@@ -72,6 +73,8 @@ def _one(ctx, i, rep=None):
         ctx.violation(None, 'grammar crashed textX: %r' % e, {'grammar': text}, rep)
         return
     ctx.count('grammars')
+    for feat in sorted(gen_.used_features):
+        ctx.count('feature_' + feat.replace('-', '_'))
     if not cfg['skipws']:
         ctx.count('cfg_skipws_off')
     if 'ws' in cfg:
